@@ -188,12 +188,23 @@ func C07(c *ev.Ctx) {
 			break
 		}
 	}
+	// the flags that add text to every definition must not make the command die either (they are applied while the
+	// files are written, after the translation proper)
+	flagsForTriage := []string{"-ignore-errors"}
+	if !crashed {
+		g3 := m.runGoose(c, "-ignore-errors", "-typecheck", "-source-comments")
+		if isCrash(g3) {
+			gout, crashed = g3, true
+			c.Set("crash_only_with_flags", "-typecheck -source-comments")
+			flagsForTriage = []string{"-ignore-errors", "-typecheck", "-source-comments"}
+		}
+	}
 	reproducedAlone := false
 	if crashed {
 		// find the offending package(s) one by one
 		for _, info := range infos {
 			one := &genModule{dir: m.dir, pkgs: []string{info.name}}
-			g1 := one.runGoose(c, "-ignore-errors")
+			g1 := one.runGoose(c, flagsForTriage...)
 			if g1.exit != 0 && g1.exit != 1 || strings.Contains(g1.stderr, "goroutine ") || strings.Contains(g1.stderr, "panic:") {
 				key := "c07.crash"
 				// name the construct: the first catalogue key whose declaration text occurs in the panic context is unknown; use all keys of the package
